@@ -14,6 +14,8 @@ def argv_for(cfg, extra=()):
     if cfg.get('break') is not None:
         argv += ['-b', cfg['break']]
     argv += list(extra)
+    if cfg.get('libwayland'):
+        argv += ['--libwayland', cfg['libwayland']]
     mode = cfg['mode']
     if mode == 'file':
         argv += ['-l', 'sim.log']
